@@ -36,6 +36,36 @@ def scan():
             if re.search(r"\w\s*\([^)]*\)\s*(const|noexcept|override|->|$)", head1) and not re.search(r"\bstruct\b", head1):
                 continue
             is_const = bool(re.search(r"\b(const|constexpr|constinit const)\b", head1))
+            # a const static that is not constexpr is initialised when control first
+            # reaches it: its initialiser may only mention namespace-qualified
+            # constants, types and literals.  An unqualified identifier (a function
+            # parameter, a local, another static) makes the value depend on the first
+            # caller - hidden state shared by every later one.
+            if is_const and not re.search(r"\bconstexpr\b", head1) and end and stmt[end.start()] in "={":
+                depth, j = 0, end.start()
+                while j < len(stmt):
+                    ch = stmt[j]
+                    if ch in "({[":
+                        depth += 1
+                    elif ch in ")}]":
+                        depth -= 1
+                    elif ch == ";" and depth <= 0:
+                        break
+                    j += 1
+                init = stmt[end.start():j]
+                for im in re.finditer(r"(?<![\w:])([A-Za-z_]\w*)\b(?!\s*::)", init):
+                    word = im.group(1)
+                    before = init[:im.start()].rstrip()
+                    if before.endswith("::") or before.endswith(".") or before.endswith("->"):
+                        continue
+                    if word in ("true", "false", "nullptr", "element", "byte_storage", "byte", "char", "int", "unsigned",
+                                "static_cast", "sizeof", "std", "const", "auto", "_tb") or re.match(r"^_?[a-z]*$", word) and re.search(r'""\s*$', before):
+                        continue
+                    if re.match(r"^\d", word):
+                        continue
+                    is_const = False
+                    head1 = head1 + " /* initialiser mentions '%s' */" % word
+                    break
             name_m = re.findall(r"([A-Za-z_]\w*)\s*(?:\[[^\]]*\])?\s*$", head1)
             name = name_m[-1] if name_m else "?"
             if name in ("struct", "constexpr", "const"):
